@@ -60,6 +60,13 @@ def close_pool():
     wn._db.pool.clear()
 
 
+class StrayDatabase(Exception):
+    """The library did not keep its database inside the data directory it was given (worker: a violation, not a harness error)."""
+
+
+_fresh_count = [0]
+
+
 class FreshDB:
     """Context manager: a brand new data directory (and database) for the library.
 
@@ -75,7 +82,12 @@ class FreshDB:
     def __enter__(self):
         import wn
         close_pool()
-        self.dir = mkdtemp('wndb')
+        self.root = mkdtemp('wndb')
+        # the data directory's name is sometimes one a careless path-to-URI conversion would trip over
+        _fresh_count[0] += 1
+        names = ['data', 'data', 'my data', 'wn#1', 'caf\u00e9 %41', 'a?b&c=d', '100%', 'data']
+        self.dir = self.root / names[_fresh_count[0] % len(names)]
+        self.dir.mkdir()
         wn.config.data_directory = str(self.dir)
         if self.init:
             # create and initialise the database through a public read-only call, so that the
@@ -89,8 +101,16 @@ class FreshDB:
 
     def __exit__(self, *exc):
         close_pool()
+        stray = None
+        if exc[0] is None:
+            others = sorted(p.name for p in self.root.iterdir() if p != self.dir)
+            if others or not (self.dir / 'wn.db').exists():
+                stray = (f'data directory {str(self.dir)!r}: wn.db inside it: {(self.dir / "wn.db").exists()}; '
+                         f'unexpected entries next to it: {others}')
         if not self.keep:
-            rmtree(self.dir)
+            rmtree(self.root)
+        if stray:
+            raise StrayDatabase(stray)
         return False
 
 
